@@ -26,7 +26,8 @@ struct MState { uint64_t N; MSlot s[NSLOT]; };
 static q128 l1(const Poly& p) { q128 s = 0; for (i128 x : p) s += x < 0 ? -(q128)x : (q128)x; return s; }
 static q128 l2(const Poly& p) { q128 s = 0; for (i128 x : p) s += (q128)x * (q128)x; return sqrtq(s); }
 static i128 linf(const Poly& p) { i128 m = 0; for (i128 x : p) { i128 a = x < 0 ? -x : x; if (a > m) m = a; } return m; }
-static bool int_ok(const std::vector<Poly>& v) { for (auto& p : v) if (linf(p) > ((i128)1 << 60)) return false; return true; }
+// an int64 limb vector holds every value of [-2^63, 2^63)
+static bool int_ok(const std::vector<Poly>& v) { for (auto& p : v) for (i128 x : p) if (x < -((i128)1 << 63) || x >= ((i128)1 << 63)) return false; return true; }
 
 struct Budget { bool ntt; uint64_t N;
   bool dft_ok(const std::vector<Poly>& v) const { if (ntt) { for (auto& p : v) if (linf(p) > ((i128)1 << 110)) return false; return true; } for (auto& p : v) if (l1(p) > 0x1p44Q) return false; return true; }
@@ -101,13 +102,13 @@ static std::vector<Op> make_ops() {
                  [](Real& R) { vec_znx_add(R.mod, R.v(V2), 2, R.sl[2], R.v(V0), 2, R.sl[0], R.v(V1), 2, R.sl[1]); }});
   ops.push_back({"V2 = vec_znx_sub(V0, V1)", false, [=](const MState& m, const Budget&, MState& n) { if (!defd(m, {V0, V1})) return false; auto r = vadd(m.s[V0].v, m.s[V1].v, -1); if (!int_ok(r)) return false; n = m; setv(n, V2, r); return true; },
                  [](Real& R) { vec_znx_sub(R.mod, R.v(V2), 2, R.sl[2], R.v(V0), 2, R.sl[0], R.v(V1), 2, R.sl[1]); }});
-  ops.push_back({"V1 = vec_znx_negate(V1) in place", false, [=](const MState& m, const Budget&, MState& n) { if (!defd(m, {V1})) return false; n = m; setv(n, V1, vmap(m.s[V1].v, poly_neg)); return true; },
+  ops.push_back({"V1 = vec_znx_negate(V1) in place", false, [=](const MState& m, const Budget&, MState& n) { if (!defd(m, {V1})) return false; auto r = vmap(m.s[V1].v, poly_neg); if (!int_ok(r)) return false; n = m; setv(n, V1, r); return true; },
                  [](Real& R) { vec_znx_negate(R.mod, R.v(V1), 2, R.sl[1], R.v(V1), 2, R.sl[1]); }});
   ops.push_back({"V2 = vec_znx_copy(V0)", false, [=](const MState& m, const Budget&, MState& n) { if (!defd(m, {V0})) return false; n = m; setv(n, V2, m.s[V0].v); return true; },
                  [](Real& R) { vec_znx_copy(R.mod, R.v(V2), 2, R.sl[2], R.v(V0), 2, R.sl[0]); }});
-  ops.push_back({"V0 = vec_znx_rotate(V0, 3) in place", false, [=](const MState& m, const Budget&, MState& n) { if (!defd(m, {V0})) return false; n = m; setv(n, V0, vmap(m.s[V0].v, [](const Poly& p) { return poly_rotate(p, 3); })); return true; },
+  ops.push_back({"V0 = vec_znx_rotate(V0, 3) in place", false, [=](const MState& m, const Budget&, MState& n) { if (!defd(m, {V0})) return false; auto r = vmap(m.s[V0].v, [](const Poly& p) { return poly_rotate(p, 3); }); if (!int_ok(r)) return false; n = m; setv(n, V0, r); return true; },
                  [](Real& R) { vec_znx_rotate(R.mod, 3, R.v(V0), 2, R.sl[0], R.v(V0), 2, R.sl[0]); }});
-  ops.push_back({"V2 = vec_znx_automorphism(V1, 5)", false, [=](const MState& m, const Budget&, MState& n) { if (!defd(m, {V1})) return false; n = m; setv(n, V2, vmap(m.s[V1].v, [](const Poly& p) { return poly_automorphism(p, 5); })); return true; },
+  ops.push_back({"V2 = vec_znx_automorphism(V1, 5)", false, [=](const MState& m, const Budget&, MState& n) { if (!defd(m, {V1})) return false; auto r = vmap(m.s[V1].v, [](const Poly& p) { return poly_automorphism(p, 5); }); if (!int_ok(r)) return false; n = m; setv(n, V2, r); return true; },
                  [](Real& R) { vec_znx_automorphism(R.mod, 5, R.v(V2), 2, R.sl[2], R.v(V1), 2, R.sl[1]); }});
   ops.push_back({"V2 = vec_znx_normalize_base2k(8, V0)", false, [=](const MState& m, const Budget&, MState& n) { if (!defd(m, {V0})) return false; n = m; setv(n, V2, vnorm(m.s[V0].v, K)); return true; },
                  [=](Real& R) { vec_znx_normalize_base2k(R.mod, K, R.v(V2), 2, R.sl[2], R.v(V0), 2, R.sl[0], R.tmp.p); }});
@@ -185,18 +186,27 @@ static std::vector<Op> make_ops() {
   return ops;
 }
 
-static MState initial(uint64_t N) {
+// initial vectors.  data 0: small polynomials.  data 1: magnitudes at the edge of the representation -
+// NTT120: the extremes of int64 (the NTT120 budget is 2^119, so every int64 is a legal input of vec_znx_dft);
+// FFT64: V0 near the largest magnitude for which products with V1 stay inside the C01 budget.
+static MState initial(uint64_t N, bool ntt, int data) {
   MState m; m.N = N;
   for (int s = V0; s <= V1; ++s) { m.s[s].def = true; m.s[s].v.assign(2, pzero(N)); for (int l = 0; l < 2; ++l) for (uint64_t j = 0; j < N; ++j) m.s[s].v[l][j] = (i128)(((int64_t)((j * 7 + l * 3 + s * 5 + 1) % 13)) - 6) * (l ? 37 : 1); }
+  if (data == 1 && ntt) {
+    const int64_t ext[8] = {INT64_MIN, INT64_MAX, INT64_MIN + 1, -1, INT64_MIN + 123456789, INT64_MAX - 1, -(INT64_C(1) << 62), (INT64_C(1) << 62) + 12345};
+    for (int l = 0; l < 2; ++l) for (uint64_t j = 0; j < N; ++j) { m.s[V0].v[l][j] = ext[(j + 3 * l) % 8]; if ((j + l) % 3 == 0) m.s[V1].v[l][j] = ext[(j + l + 5) % 8]; }
+  } else if (data == 1) {
+    for (int l = 0; l < 2; ++l) for (uint64_t j = 0; j < N; ++j) { int64_t mag = (INT64_C(1) << 34) / (int64_t)N; int64_t v = mag - (int64_t)((j * 2654435761u + l * 40503u) % (uint64_t)(mag / 4 + 1)); m.s[V0].v[l][j] = ((j + l) & 1) ? -v : v; }
+  }
   return m;
 }
 
 struct Node { std::vector<uint8_t> hist; };
 
 // replays a history on fresh real objects; checks every integer slot and every DFT slot against the model after the last op
-static std::string replay(const std::vector<Op>& ops, MODULE* mod, MODULE_TYPE t, uint64_t N, const std::vector<uint8_t>& hist) {
+static std::string replay(const std::vector<Op>& ops, MODULE* mod, MODULE_TYPE t, uint64_t N, int data, const std::vector<uint8_t>& hist) {
   Budget bud{t == NTT120, N};
-  MState m = initial(N), n;
+  MState m = initial(N, t == NTT120, data), n;
   Real R(mod, t, N);
   R.set_vec(V0, m.s[V0].v); R.set_vec(V1, m.s[V1].v);
   for (size_t i = 0; i < hist.size(); ++i) {
@@ -227,9 +237,9 @@ int main(int argc, char** argv) {
   Ctx ctx(args);
   const bool th = args.thorough();
   std::vector<Op> ops = make_ops();
-  struct Cfg { uint64_t N; MODULE_TYPE t; int depth; };
+  struct Cfg { uint64_t N; MODULE_TYPE t; int depth; int data; };
   std::vector<Cfg> cfgsv;
-  for (uint64_t N : (th ? std::vector<uint64_t>{4, 8, 16, 64} : std::vector<uint64_t>{4, 8})) { cfgsv.push_back({N, FFT64, th ? (N <= 8 ? 6 : 5) : 5}); cfgsv.push_back({N, NTT120, th ? 7 : 6}); }
+  for (uint64_t N : (th ? std::vector<uint64_t>{4, 8, 16, 64} : std::vector<uint64_t>{4, 8})) for (int data = 0; data < 2; ++data) { cfgsv.push_back({N, FFT64, th ? (N <= 8 ? 6 : 5) : 5, data}); cfgsv.push_back({N, NTT120, th ? 7 : 6, data}); }
   uint64_t tot_states = 0, tot_trans = 0, capped_levels = 0;
   Json perj = Json::arr();
   for (auto& C : cfgsv) {
@@ -238,7 +248,7 @@ int main(int argc, char** argv) {
     // parent: model-only breadth-first enumeration; one representative history per distinct model state
     std::set<std::pair<uint64_t, uint64_t>> seen;
     std::vector<std::pair<MState, std::vector<uint8_t>>> frontier, next;
-    MState m0 = initial(C.N);
+    MState m0 = initial(C.N, C.t == NTT120, C.data);
     uint64_t h1, h2; key_of(m0, h1, h2); seen.insert({h1, h2});
     frontier.push_back({m0, {}});
     std::vector<std::vector<uint8_t>> transitions;  // history + op
@@ -263,17 +273,17 @@ int main(int argc, char** argv) {
   done_enum:
     frontier.clear(); next.clear();
     tot_states += states; tot_trans += transitions.size();
-    perj.push(sfmt("N=%llu %s depth %d: %llu model states, %llu transitions", (unsigned long long)C.N, mtname(C.t), C.depth, (unsigned long long)states, (unsigned long long)transitions.size()));
+    perj.push(sfmt("N=%llu %s data %d depth %d: %llu model states, %llu transitions", (unsigned long long)C.N, mtname(C.t), C.data, C.depth, (unsigned long long)states, (unsigned long long)transitions.size()));
     // workers: replay every transition on the real code
     const uint64_t chunk = 256;
     ctx.parallel((transitions.size() + chunk - 1) / chunk, [&](uint64_t ci) {
       for (uint64_t i = ci * chunk; i < std::min<uint64_t>(transitions.size(), (ci + 1) * chunk); ++i) {
         const auto& h = transitions[i];
-        std::string id = sfmt("pipeline|%s|N=%llu|", mtname(C.t), (unsigned long long)C.N);
+        std::string id = sfmt("pipeline|%s|N=%llu|data=%d|", mtname(C.t), (unsigned long long)C.N, C.data);
         for (size_t j = 0; j < h.size(); ++j) { if (j) id += " ; "; id += ops[h[j]].name; }
         if (!ctx.want(id)) continue;
         ctx.begin_case(id);
-        std::string err = replay(ops, mod, C.t, C.N, h);
+        std::string err = replay(ops, mod, C.t, C.N, C.data, h);
         if (err.compare(0, 9, "MACHINERY") == 0) machinery_error("%s", err.c_str());
         if (!err.empty()) ctx.violation(id, err);
         ctx.end_case(true);
@@ -284,7 +294,7 @@ int main(int argc, char** argv) {
   ex.set("states", tot_states).set("transitions", tot_trans).set("traces_validated_against_impl", tot_trans).set("per_configuration", perj).set("op_instances", (long long)ops.size());
   if (capped_levels) ex.set("enumeration_cap", "the transition cap was reached in at least one configuration: the deepest level of that configuration is incomplete");
   ctx.assumptions = {"an op is enabled only when the interpreter's exact result stays inside the budget of its representation (FFT64: summed C01 error budget < 1/4 and |x|_1 < 2^44 in DFT space, |coeff| < 2^50 for big vectors; NTT120: |coeff| < 2^110); sequences leaving the budget are pruned, not judged",
-                     "model states are merged only when all slot values and, for opaque DFT/prepared slots, the producing expression coincide", "initial vectors are small fixed polynomials; each node is rebuilt by replaying its history on fresh objects"};
+                     "model states are merged only when all slot values and, for opaque DFT/prepared slots, the producing expression coincide", "two initial datasets per configuration: small polynomials, and magnitudes at the edge of the representation (NTT120: int64 extremes incl. INT64_MIN; FFT64: ~2^34/N against small multipliers); each node is rebuilt by replaying its history on fresh objects"};
   return ctx.finish("model_checking",
                     "breadth-first enumeration of the model state graph over ~30 op instances of the public API (coefficient ops, normalisation, dft, svp, vmp, idft, idft_tmp_a, big arithmetic, small product) to the depth bound for N in {4,8} (both VMP layouts; 16, 64 thorough) and both module types; "
                     "every transition replayed on the real library and compared with the exact interpreter; distinct = distinct pipelines",
